@@ -31,6 +31,11 @@ def main():
         with open(a.replay) as f:
             rec = json.load(f)
         case = core.unjson(rec["case"])
+        if tuple(case) == ("__setup__",):
+            # the recorded failure happened while the check was being set up: replaying it means setting the check up again
+            a.replay = None
+            a.no_evidence = True
+    if a.replay:
         if hasattr(mod, "prepare"):
             mod.prepare(ctx)
         obs = []
@@ -49,15 +54,40 @@ def main():
             sys.exit(1)
         sys.exit(0)
 
-    if hasattr(mod, "prepare"):
-        mod.prepare(ctx)
-    if hasattr(mod, "main"):
-        agg, caps = mod.main(ctx)
-    else:
-        agg = core.explore(mod, ctx, mod.cases(ctx))
-        caps = None
-    if hasattr(mod, "finish"):
-        mod.finish(ctx, agg)
+    try:
+        if hasattr(mod, "prepare"):
+            mod.prepare(ctx)
+        if hasattr(mod, "main"):
+            agg, caps = mod.main(ctx)
+        else:
+            agg = core.explore(mod, ctx, mod.cases(ctx))
+            caps = None
+        if hasattr(mod, "finish"):
+            mod.finish(ctx, agg)
+    except (SystemExit, KeyboardInterrupt):
+        raise
+    except BaseException as e:
+        # an exception outside the per-case runner: while the valid baseline artefacts of the check were being built or the
+        # case list was generated.  If the library under test raised it, the library fails on input every case starts from -
+        # that is a violation of the property, reported as such; an error in the harness itself is a broken check (exit 2).
+        import traceback
+        tb = traceback.extract_tb(e.__traceback__)
+        inner = tb[-1] if tb else None
+        in_target = inner is not None and os.path.realpath(inner.filename).startswith(target.REPO + os.sep)
+        text = "".join(traceback.format_exception(type(e), e, e.__traceback__))
+        if not in_target:
+            sys.stderr.write(text)
+            print("%s: harness error outside the case runner: %s: %s" % (prop, type(e).__name__, e))
+            sys.exit(2)
+        fp = "setup|%s|%s" % (type(e).__name__, inner.name)
+        v = {"case": ("__setup__",), "msg": "building the valid artefacts / the case list of the check failed inside the library: %s: %s (in %s, %s:%d)" % (
+            type(e).__name__, e, inner.name, os.path.basename(inner.filename), inner.lineno), "detail": {"traceback": text[-3000:]}, "count": 1}
+        path = core.write_replay(prop, fp, v)
+        print("VIOLATION property=%s replay=%s" % (prop, path))
+        print("  fingerprint: %s (1 cases)" % fp)
+        print("  " + v["msg"][:1500])
+        print("%s tier=%s seed=%d evaluations=0 distinct_nontrivial=0 outcomes=0 wall=%.1fs FAIL" % (prop, a.tier, seed, time.time() - t0))
+        sys.exit(1)
     bad = core.report(prop, agg)
     wall = time.time() - t0
     if not a.no_evidence:
